@@ -233,7 +233,7 @@ class Verifier:
                     when, pat = hk
                     hit = any(k == c.key and w == when and (fp == pat or ('*' in pat and fnmatch.fnmatchcase(fp, pat)))
                               for (k, w, fp) in self.ghost_hits)
-                    if not hit:
+                    if not hit and not any(r.status in ('failed', 'unknown') for r in results):
                         raise EngineError(f'{key}: ghost hook {hk!r} attached to no statement on any path (the statement it names '
                                           f'no longer occurs: contract drift)')
         return results, info
